@@ -318,11 +318,18 @@ def k_pdu(ctx, kind, cfg, p, suffix_cls, seed):
     ctx.case(f"pdu_{kind}/crc={cfg['crc']}/{suffix_cls}", (u, s), sample=dict(case, suffix=s.hex()[:60]) if len(u) < 120 else None)
     exp = C.norm_params(kind, p)
     doc = documented_errors()
-    for dname, dec in (("class", X.CLS[kind].unpack), ("factory", X.PduFactory.from_raw)):
+    class _Held:
+        """The holder route: parameters from the held PDU, the length the *holder* reports."""
+        def __init__(self, raw):
+            self.h = X.PduFactory.from_raw_to_holder(raw)
+            self.pdu = self.h.pdu
+        def __getattr__(self, name):
+            return getattr(self.h if name in ("packet_len", "pack") else self.pdu, name)
+    for dname, dec in (("class", X.CLS[kind].unpack), ("factory", X.PduFactory.from_raw), ("holder", _Held)):
         ok, b = attempt(dec, u)
         if not ctx.check("unit_alone_decodes", ok and b is not None, "raised", f"{feat}/{dname}/" + (exc_sig(b) if not ok else ""), case, error=repr(b)):
             continue
-        base = C.norm_params(kind, C.get_params(kind, b))
+        base = C.norm_params(kind, C.get_params(kind, b.pdu if dname == "holder" else b))
         if not ctx.check("pdu_params_are_constructor_args", base == exp, "differs", f"{feat}/{C.diff_keys(base, exp)}", case, expected=exp, observed=base):
             continue
         ctx.check("reported_length", b.packet_len == len(u), "differs_from_declared", feat, case, observed=b.packet_len, expected=len(u))
@@ -335,7 +342,7 @@ def k_pdu(ctx, kind, cfg, p, suffix_cls, seed):
                 ctx.fail("suffix_non_interference", "undocumented_error_with_suffix", f"{feat}/{dname}/{exc_sig(g)}", case, suffix=s, error=repr(g))
             continue
         ctx.table("pdu_with_suffix_outcome", f"{kind}:decoded")
-        got = C.norm_params(kind, C.get_params(kind, g))
+        got = C.norm_params(kind, C.get_params(kind, g.pdu if dname == "holder" else g))
         if got != exp:
             ctx.fail("suffix_non_interference", "trailing_octets_in_params", f"{feat}/{dname}/{C.diff_keys(got, exp)}", case, suffix=s, expected=exp, observed=got)
             continue
